@@ -108,6 +108,8 @@ static std::string sanitizer_summary(const std::string &path, std::string *detai
     if (re != std::string::npos) sum = sum.substr(0, re) + std::regex_replace(sum.substr(re), std::regex("-?[0-9]+"), "N");
   }
   sum = std::regex_replace(sum, std::regex("/verif/build/[a-z0-9-]+/"), "");
+  sum = std::regex_replace(sum, std::regex("\\(BuildId: [0-9a-f]+\\)"), "");
+  sum = std::regex_replace(sum, std::regex("\\(/verif/build/simcheck[^)]*\\)"), "");
   sum = std::regex_replace(sum, std::regex(" +"), "_");
   return sum;
 }
